@@ -1,19 +1,75 @@
 package sim
 
 import (
+	"bytes"
 	"flag"
-	"io"
+	"os"
+	"sync"
 
 	"k8s.io/klog/v2"
 )
 
-// QuietLogs discards everything the code under test logs (logging is never
-// read by an oracle) unless VERIF_LOGS is set.
+// logTap discards what the code under test logs, but remembers whether a few
+// marker messages were seen since the last reset. Markers are only used to
+// classify the *cause* of a violation in its signature (e.g. "the resource
+// manager logged that reverting the configuration failed too"), never to
+// decide whether something is a violation.
+type logTap struct {
+	mu      sync.Mutex
+	markers [][]byte
+	seen    map[string]bool
+	echo    bool
+}
+
+var tap = &logTap{seen: map[string]bool{}}
+
+func (t *logTap) Write(p []byte) (int, error) {
+	t.mu.Lock()
+	for _, m := range t.markers {
+		if bytes.Contains(p, m) {
+			t.seen[string(m)] = true
+		}
+	}
+	echo := t.echo
+	t.mu.Unlock()
+	if echo {
+		os.Stderr.Write(p)
+	}
+	return len(p), nil
+}
+
+// LogMarkers sets the marker substrings to watch for.
+func LogMarkers(ms ...string) {
+	tap.mu.Lock()
+	tap.markers = nil
+	for _, m := range ms {
+		tap.markers = append(tap.markers, []byte(m))
+	}
+	tap.mu.Unlock()
+}
+
+// LogReset forgets the markers seen so far.
+func LogReset() {
+	tap.mu.Lock()
+	tap.seen = map[string]bool{}
+	tap.mu.Unlock()
+}
+
+// LogSeen reports whether the marker was logged since the last reset.
+func LogSeen(m string) bool {
+	tap.mu.Lock()
+	defer tap.mu.Unlock()
+	return tap.seen[m]
+}
+
+// QuietLogs routes everything the code under test logs into the tap
+// (echoed to stderr when VERIF_LOGS is set).
 func QuietLogs() {
 	fs := flag.NewFlagSet("klog", flag.ContinueOnError)
 	klog.InitFlags(fs)
 	fs.Set("logtostderr", "false")
 	fs.Set("alsologtostderr", "false")
 	fs.Set("stderrthreshold", "FATAL")
-	klog.SetOutput(io.Discard)
+	tap.echo = os.Getenv("VERIF_LOGS") != ""
+	klog.SetOutput(tap)
 }
